@@ -28,7 +28,7 @@ import (
 
 const M = ringlab.M
 
-var scenarios = []string{"nil-pred-at-lock", "nil-pred-before", "pred-self", "dup-id", "adjacent-id", "succ-transferring", "succ-leaving", "leave-then-join-race", "stale-dead-pred", "succ-left-stale-route", "pred-ping-error"}
+var scenarios = []string{"nil-pred-at-lock", "nil-pred-before", "pred-self", "dup-id", "adjacent-id", "succ-transferring", "succ-leaving", "leave-then-join-race", "stale-dead-pred", "succ-left-stale-route", "pred-ping-error", "route-one-join-behind"}
 
 type jcase struct {
 	Name     string `json:"name"`
@@ -244,6 +244,39 @@ func runCase(c jcase, rep *batch.Report) batch.CaseResult {
 			}
 		}
 		go func() { time.Sleep(time.Duration(5+rng.Intn(20)) * time.Millisecond); lab.Unfreeze() }()
+	case "route-one-join-behind":
+		if n < 2 || !c.NetV {
+			break
+		}
+		// another node X has just joined between the joiner and its successor N, and the advisory that
+		// tells N's old predecessor P about X was lost (periodic tasks parked, so P has not found out by
+		// itself): asked through P, the request is routed to N, whose predecessor X is closer than the joiner
+		if !lab.FreezePeriodic(20 * time.Second) {
+			res.Inconclusive = "periodic tasks could not be parked within 20 s"
+			return res
+		}
+		pid, ok := succ.Node.VerifPredecessorID()
+		d := (succID + M - jid) % M
+		if ok && pid != succID && d >= 2 {
+			xid := (jid + 1 + rng.Uint64()%(d-1)) % M
+			if !used[xid] {
+				used[xid] = true
+				lab.Faults.Add(&ringlab.Fault{Method: "FinishJoin", Target: pid, Nth: 1, Mode: ringlab.FailBefore})
+				if x, err := lab.Spawn(xid, ringlab.Memory); err == nil && x.Join(succ) == nil {
+					members = append(members, x)
+					ids = append(ids, xid)
+					ps, _ := lab.Member(pid).Node.VerifSuccessorID()
+					np, _ := succ.Node.VerifPredecessorID()
+					if ps == succID && np == xid {
+						windowHit.Store(true)
+						stateSeen = fmt.Sprintf("%d joined in front of %d; %d still has %d as its successor", xid, succID, pid, succID)
+						via = lab.Member(pid)
+					}
+					succID, succ = xid, x
+				}
+			}
+		}
+		go func() { time.Sleep(time.Duration(5+rng.Intn(20)) * time.Millisecond); lab.Unfreeze() }()
 	case "pred-ping-error":
 		if n < 2 || !c.NetV {
 			break
@@ -429,7 +462,7 @@ func main() {
 	child.Register("cases", runCases)
 	child.Main()
 	r := ev.Start("C08", "exploration")
-	r.SetRule("a real Join is issued into a live ring of 1..6 real LocalNodes whose contacted successor is in a constructed state: predecessor cleared exactly when the request holds the membership lock (hook rtj.locked) or just before; predecessor == self (one-node ring); joiner id equal / adjacent (+-1,+-2) to a member id; successor held in Transferring by another join (blocked at a hook) or in Leaving by its own leave (blocked at a hook); predecessor of the successor leaving concurrently; predecessor of the successor gone with the pointer still naming it (periodic tasks parked), asked directly or through another member; successor gone for good while the contacted member still routes to it; predecessor of the successor alive but the one ping the join request sends to it ends with a transport error (proxied wiring); direct and proxied wiring; distinct+non-trivial = (scenario, ring size, wiring, outcome class) for cases whose window was hit")
+	r.SetRule("a real Join is issued into a live ring of 1..6 real LocalNodes whose contacted successor is in a constructed state: predecessor cleared exactly when the request holds the membership lock (hook rtj.locked) or just before; predecessor == self (one-node ring); joiner id equal / adjacent (+-1,+-2) to a member id; successor held in Transferring by another join (blocked at a hook) or in Leaving by its own leave (blocked at a hook); predecessor of the successor leaving concurrently; predecessor of the successor gone with the pointer still naming it (periodic tasks parked), asked directly or through another member; successor gone for good while the contacted member still routes to it; the request routed through a member whose successor pointer is one join behind (another node has just joined in front of the successor and the advisory to the old predecessor was lost; proxied wiring); predecessor of the successor alive but the one ping the join request sends to it ends with a transport error (proxied wiring); direct and proxied wiring; distinct+non-trivial = (scenario, ring size, wiring, outcome class) for cases whose window was hit")
 	r.Assume("an equal joiner id is answered with ErrDuplicateJoinerID (not a valid joiner); ErrNodeGone from a contacted node that has itself left meanwhile is not an internal error of a serving node")
 	rng := r.Rand("cases")
 	reps := r.Pick(4, 60)
